@@ -262,3 +262,55 @@ def load_known_findings():
 
 def exc_class(e: BaseException) -> str:
     return type(e).__name__
+
+
+# --------------------------------------------------------------------------- shrinking
+
+def ddmin(items, still_fails, budget_s=15.0):
+    """Delta-minimise a list: the shortest sub-list (order kept) found within the budget on which `still_fails`
+    holds.  `still_fails(candidate) -> bool` must be side-effect free; exceptions count as "does not fail"."""
+    import time
+    t0 = time.time()
+    items = list(items)
+
+    def ok(c):
+        try:
+            return bool(still_fails(c))
+        except Exception:  # noqa: BLE001
+            return False
+    n = 2
+    while len(items) >= 2 and time.time() - t0 < budget_s:
+        chunk = max(1, len(items) // n)
+        reduced = False
+        for start in range(0, len(items), chunk):
+            cand = items[:start] + items[start + chunk:]
+            if cand and ok(cand):
+                items, n, reduced = cand, max(n - 1, 2), True
+                break
+            if time.time() - t0 > budget_s:
+                break
+        if not reduced:
+            if chunk == 1:
+                break
+            n = min(len(items), n * 2)
+    return items
+
+
+def shrink_failure(mod, failure, budget_s=20.0):
+    """If the harness offers `shrink(inp, fails)`, minimise the failing input: `fails(inp2)` is true iff the
+    harness's own content-based `replay` fails on inp2 with the same verdict text.  Returns the (possibly) smaller
+    input; the original is kept by the caller."""
+    if not hasattr(mod, "shrink"):
+        return None
+    what = failure["what"]
+
+    def fails(inp2):
+        ok, msg = mod.replay({"input": inp2})
+        return (not ok) and str(msg) == str(what)
+    try:
+        if not fails(failure["input"]):
+            return None          # the replay does not reproduce this verdict from the content: nothing to shrink
+        small = mod.shrink(failure["input"], fails, budget_s)
+        return small if small is not None and fails(small) else None
+    except Exception:  # noqa: BLE001
+        return None
